@@ -56,6 +56,8 @@ var aeElems = []string{
 	"gzip;q=0", "zstd;q=0", "vprobe;q=0", "gzip;q=0.0", "zstd;q=0.000", "gzip;q=0.001", "zstd;q=0.001",
 	"gzip;q=1", "zstd;q=1.0", "gzip;q=1.000", "gzip;q=0.5", "zstd;q=0.5", "vprobe;q=0.5", "gzip;q=0.50", "zstd;q=.5",
 	"gzip;q=0.9", "zstd;q=0.8", "vprobe;q=0.999", "gzip; q=0.3", "zstd ; q=0.7", "gzip;Q=0.2", "zstd;q=0.25",
+	"gzip;Q=0", "zstd;Q=0", "vprobe;Q=0", "gzip;Q=0.0", "ZSTD;Q=0.000", "gzip ;Q=0", "zstd; Q=0.00", "gzip\t;\tQ=0", "Zstd ; Q=0.",
+	"gzip;Q=1", "zstd;Q=0.9", "vprobe; Q=0.5", "GZIP ;\tQ=0.001", "identity;Q=0", "*;Q=0",
 	"gzip;q=high", "zstd;q=", "gzip;q=1.5", "zstd;q=-1", "gzip;q=2", "vprobe;q=-0", "gzip;q=+0.4", "zstd;q=00.6", "gzip;q=5.",
 	"gzip;x=1", "gzip;x=1;q=0", "zstd;level=3;q=0.1", "gzip;q=0;x=1", "gzip;q = 0", "identity;q=0", "*;q=0", "*;q=0.1",
 	"identity;q=1", "br;q=1", "gzip;q=0.5;q=0", "zstd;q=0.333", "vprobe;q=0.334", "gzip;", ";q=1", "gzip;q=0,5", "zstd;q=0 .1", "gzip;q=one", "zstd;q=0.5%",
@@ -243,6 +245,91 @@ func (g *genCase) readChunks(n int) []string {
 	return out
 }
 
+func randCase(rng *core.Rand, s string) string {
+	b := []byte(s)
+	switch rng.Intn(4) {
+	case 0:
+		return strings.ToUpper(s)
+	case 1:
+		for i := range b {
+			if rng.Chance(1, 2) && b[i] >= 'a' && b[i] <= 'z' {
+				b[i] -= 32
+			}
+		}
+	}
+	return string(b)
+}
+
+var qZero = []string{"0", "0.", "0.0", "0.00", "0.000"}
+var qPos = []string{"1", "1.", "1.0", "1.000", "0.001", "0.1", "0.25", "0.5", "0.50", "0.500", "0.75", "0.9", "0.999"}
+var ows = []string{"", "", "", " ", "\t", "  ", " \t"}
+
+// rfcHeader builds an Accept-Encoding value that is entirely inside the RFC 9110 grammar: coding names in
+// any case, `q=` / `Q=`, optional white space around `;` and `,`, explicit refusals (q=0 in all its
+// spellings). With `refuse` non-empty that coding (the server's favourite) is refused while another
+// offered coding stays acceptable.
+func (g *genCase) rfcHeader(offered []string, refuse string) string {
+	rng := g.rng
+	names := shuffle(rng, []string{"gzip", "zstd", "vprobe", "br", "identity", "*", "deflate"})
+	names = names[:1+rng.Intn(5)]
+	has := func(n string) bool {
+		for _, x := range names {
+			if x == n {
+				return true
+			}
+		}
+		return false
+	}
+	if refuse != "" {
+		if !has(refuse) {
+			names = append(names, refuse)
+		}
+		for _, o := range shuffle(rng, offered) {
+			if o != refuse {
+				if !has(o) {
+					names = append(names, o)
+				}
+				break
+			}
+		}
+		names = shuffle(rng, names)
+	}
+	var parts []string
+	for _, n := range names {
+		el := randCase(rng, n)
+		weight := ""
+		switch {
+		case n == refuse:
+			weight = rng.Pick(qZero)
+		case refuse != "" && n != "*" && n != "identity" && n != "br" && n != "deflate":
+			weight = rng.Pick(qPos)
+			if rng.Chance(1, 3) {
+				weight = "" // no weight at all = 1
+			}
+		case rng.Chance(1, 3):
+		case rng.Chance(1, 4):
+			weight = rng.Pick(qZero)
+		default:
+			weight = rng.Pick(qPos)
+		}
+		if weight != "" || n == refuse {
+			el += rng.Pick(ows) + ";" + rng.Pick(ows) + rng.Pick([]string{"q", "q", "Q"}) + "=" + weight
+		}
+		parts = append(parts, el)
+	}
+	out := ""
+	for i, p := range parts {
+		if i > 0 {
+			out += rng.Pick(ows) + "," + rng.Pick(ows)
+		}
+		out += p
+	}
+	if rng.Chance(1, 10) {
+		out = rng.Pick([]string{" ", ",", ", ,"}) + out
+	}
+	return out
+}
+
 func (g *genCase) one() string {
 	rng := g.rng
 	all := []string{"gzip", "zstd", "vprobe"}
@@ -280,6 +367,17 @@ func (g *genCase) one() string {
 			ae = rng.Pick([]string{"gzip", "gzip, deflate, br, zstd", "zstd", "gzip, zstd", "*", "identity", "", "vprobe,gzip"})
 		case 1:
 			ae = "gzip, deflate, br, zstd"
+		case 2, 3:
+			ae = g.rfcHeader(enc, "")
+		case 4:
+			// the coding the server would pick first is refused, a less preferred offered one is acceptable
+			fav := ""
+			if len(prefer) > 0 {
+				fav = prefer[0]
+			} else if len(enc) > 0 {
+				fav = enc[rng.Intn(len(enc))]
+			}
+			ae = g.rfcHeader(enc, fav)
 		default:
 			n := 1 + rng.Intn(4)
 			if rng.Chance(1, 30) {
